@@ -27,13 +27,12 @@ def build_cases(tier, seed=SEED):
         for n in ns:
             if o + n - 1 > 6: continue
             for ki, kern in enumerate(KERNELS[n]):
-                if tier == 'quick' and ki and (o + n) % 2: continue
                 for extra in ((0, 2) if tier == 'quick' else (0, 1, 3)):
                     ks = knot_family('irregular' if extra else 'uniform', 2 * o + 2 + extra, o, rng)
                     add('c14_1d_o%d_n%d_k%d_e%d' % (o, n, ki, extra), [o], [ks], 0, kern)
     # multi-D: both dimension indices, other dimensions untouched
     md = [([1, 2], 0, 2), ([1, 2], 1, 3), ([2, 0, 1], 1, 2), ([0, 1], 0, 3)]
-    if tier != 'quick': md += [([2, 2], 0, 4), ([1, 1, 1], 2, 3), ([1, 0, 1, 1], 1, 2), ([3, 1], 0, 3)]
+    md += [([2, 2], 0, 4), ([1, 1, 1], 2, 3), ([1, 0, 1, 1], 1, 2), ([3, 1], 0, 3)]
     for ords, cdim, n in md:
         kn = [knot_family('irregular', 2 * o + 2 + (1 if d == cdim else 0), o, rng) for d, o in enumerate(ords)]
         add('c14_md_o%s_d%d_n%d' % ('-'.join(map(str, ords)), cdim, n), ords, kn, cdim, KERNELS[n][0])
@@ -104,7 +103,7 @@ def run_check(tier):
         else: out.errors.append(msg + ' -- not reproduced on the real build (%s): %s' % (path, (r['out'] + r['err'])[-200:].replace('\n', ' ')))
     out.cov['queries'] = len(res); out.cov['e2_cases'] = len(cases); out.cov['functions_encoded'] = m['translated']
     out.cov['samples'] = [dict(label=q['label'], verdict=q['verdict'], nodes=q.get('nodes')) for q in res[:6]] + [cases[0][1][:400]]
-    out.cov['bounds'] = dict(orders=list(range(0, 4)) if tier == 'quick' else list(range(0, 6)), kernel_knots=[2, 3, 4] if tier == 'quick' else [2, 3, 4, 5, 6], multi_d='2..3-D (quick) / ..4-D, every dimension index',
+    out.cov['bounds'] = dict(orders=list(range(0, 4)) if tier == 'quick' else list(range(0, 6)), kernel_knots=[2, 3, 4] if tier == 'quick' else [2, 3, 4, 5, 6], multi_d='2..4-D, every dimension index',
                              symbolic='all coefficients; table and kernel knots concrete rationals (comparisons on computed knot sums need values)', solver_budget_s=budget)
     out.cov['checker_cmd'] = 'z3 -t:%d000 (QF_NRA obligations)' % budget
     out.cov['trusted_base'] = ['clang-14 IR', 'ir2c.py', 'rt_sym.cpp', 'tools/oracle_conv.py (exact piecewise polynomial convolution)', 'models/alloc_ledger.c', 'z3 / cvc5']
